@@ -324,4 +324,63 @@ theorem confT_length : ∀ (ts : List Ty) (xs : List Obj), confT w ts xs = true 
     | nil => simp [confT] at h
     | cons x xs => simp only [confT, Bool.and_eq_true] at h; simp [ih xs h.2]
 
+
+/-! ### mapping target classes -/
+
+theorem conf_mapRes (k : MK) (kt vt : Ty) (kvs : List (Obj × Obj))
+    (hp : cfg.gen = true ∨ k.target = Option.none)
+    (h : confKV w kt vt kvs = true ∧ nodupPy (keysOf kvs) = true ∧ hashableL w (keysOf kvs) = true) :
+    conf w (.map k kt vt) (mapRes cfg k kvs) = true := by
+  obtain ⟨h1, h2, h3⟩ := h
+  unfold mapRes
+  by_cases hg : cfg.gen = true
+  · simp only [hg, if_true]
+    unfold mkMapObj
+    cases ht : k.target with
+    | none => simp [conf, h1, h2, h3, ht]
+    | some d => simp [conf, h1, h2, h3, ht]
+  · have hk : k.target = Option.none := by
+      rcases hp with hp | hp
+      · exact absurd hp hg
+      · exact hp
+    simp [hg, conf, h1, h2, h3, hk]
+
+namespace PM
+variable {w cfg}
+variable {g : Prop}
+
+theorem coll {k : SK} {t : Ty} (h : g ∨ (Ty.coll k t).plainMaps = true) : g ∨ t.plainMaps = true :=
+  h.imp id (by simp only [Ty.plainMaps]; exact id)
+theorem opt {t : Ty} (h : g ∨ (Ty.opt t).plainMaps = true) : g ∨ t.plainMaps = true :=
+  h.imp id (by simp only [Ty.plainMaps]; exact id)
+theorem wrap {k : WK} {t : Ty} (h : g ∨ (Ty.wrap k t).plainMaps = true) : g ∨ t.plainMaps = true :=
+  h.imp id (by simp only [Ty.plainMaps]; exact id)
+theorem plainMapsL_mem : ∀ {ts : List Ty}, Ty.plainMapsL ts = true → ∀ t ∈ ts, t.plainMaps = true
+  | [], _, t, ht => by cases ht
+  | t0 :: ts, h, t, ht => by
+    simp only [Ty.plainMapsL, Bool.and_eq_true] at h
+    rcases List.mem_cons.mp ht with rfl | ht'
+    · exact h.1
+    · exact plainMapsL_mem h.2 t ht'
+theorem tup {ts : List Ty} (h : g ∨ (Ty.tupleHet ts).plainMaps = true) : ∀ t ∈ ts, g ∨ t.plainMaps = true :=
+  fun t ht => h.imp id (by simp only [Ty.plainMaps]; exact fun h' => plainMapsL_mem h' t ht)
+theorem mapK {k : MK} {kt vt : Ty} (h : g ∨ (Ty.map k kt vt).plainMaps = true) : g ∨ kt.plainMaps = true :=
+  h.imp id (by simp only [Ty.plainMaps, Bool.and_eq_true]; exact fun h' => h'.1.2)
+theorem mapV {k : MK} {kt vt : Ty} (h : g ∨ (Ty.map k kt vt).plainMaps = true) : g ∨ vt.plainMaps = true :=
+  h.imp id (by simp only [Ty.plainMaps, Bool.and_eq_true]; exact fun h' => h'.2)
+theorem mapT {k : MK} {kt vt : Ty} (h : g ∨ (Ty.map k kt vt).plainMaps = true) : g ∨ k.target = Option.none :=
+  h.imp id (by simp only [Ty.plainMaps, Bool.and_eq_true, Option.isNone_iff_eq_none]; exact fun h' => h'.1.1)
+theorem field {c : Nat} {f : Field} {t : Ty} (h : g ∨ w.plainMaps) (hf : f ∈ w.fields c) (ht : f.ty = some t) :
+    g ∨ t.plainMaps = true := h.imp id (fun h' => h' c f hf t ht)
+theorem ntTy {c : Nat} {t : Ty} (h : g ∨ w.plainMaps) (ht : t ∈ w.ntTys c) : g ∨ t.plainMaps = true := by
+  refine h.imp id (fun h' => ?_)
+  simp only [World.ntTys, List.mem_map] at ht
+  obtain ⟨f, hf, rfl⟩ := ht
+  unfold Field.tyA
+  cases hty : f.ty with
+  | none => simp [Ty.plainMaps]
+  | some t' => exact h' c f hf t' hty
+theorem cls {c : Nat} : g ∨ (Ty.cls c).plainMaps = true := Or.inr (by simp [Ty.plainMaps])
+end PM
+
 end CattrsModel
